@@ -197,8 +197,10 @@ pub struct Collector {
     shared: Arc<Shared>,
     pub http_addr: SocketAddr,
     pub grpc_addr: SocketAddr,
-    /// a port on which nothing listens (connection refused)
+    /// a port on which nothing listens (connection refused); the bound, never-listening socket is kept so the
+    /// port cannot be handed to anybody else while this process lives
     pub dead_addr: SocketAddr,
+    _dead_socket: tokio::net::TcpSocket,
 }
 
 impl Collector {
@@ -222,12 +224,11 @@ impl Collector {
             })
             .unwrap();
         let (http_addr, grpc_addr) = rx.recv().unwrap();
-        // a dead port: bind, read the port, close
-        let dead_addr = {
-            let l = std::net::TcpListener::bind("127.0.0.1:0").unwrap();
-            l.local_addr().unwrap()
-        };
-        Collector { shared, http_addr, grpc_addr, dead_addr }
+        // a dead port: bound but never listening, so `connect` is refused
+        let dead_socket = tokio::net::TcpSocket::new_v4().unwrap();
+        dead_socket.bind("127.0.0.1:0".parse().unwrap()).unwrap();
+        let dead_addr = dead_socket.local_addr().unwrap();
+        Collector { shared, http_addr, grpc_addr, dead_addr, _dead_socket: dead_socket }
     }
 
     /// Forget everything recorded and install new scripts. With `hold_all` every request is parked (`Hold`)
